@@ -146,3 +146,33 @@ Proof. exact monitor_C02_min. Qed.
 Print Assumptions C02_monitor.
 Print Assumptions C02_monitor_nodup.
 Print Assumptions C02_monitor_uids.
+
+(* ---- the ownership-policy decision, tied to the source by translation ---------------------------
+   `harness/cmd/gentables` re-translates pkg/inventory/policy.go (IDMatch, CanApply, CanPrune and the
+   two iota constant blocks) from the Go AST on every run into Generated/SourceTables.v; the functions
+   the theorems above are about (`can_apply`, `can_prune`, the three owner classes) are what that
+   source says, for every owner class and every policy.  A change of a guard, label, returned pair or
+   constant order in the source breaks this obligation. *)
+From Coq Require Import String.
+From CliUtils Require Generated.SourceTables Proofs.PolicySrcAgree.
+Theorem C02_policy_source_translation_agrees : forall sc ow,
+  PolicySrcAgree.eval_fn SourceTables.src_can_apply (PolicySrcAgree.status_name ow) (o_policy (sc_opts sc))
+    = Some (can_apply sc ow, can_apply sc ow) /\
+  PolicySrcAgree.eval_fn SourceTables.src_can_prune (PolicySrcAgree.status_name ow) (o_policy (sc_opts sc))
+    = Some (can_prune sc ow, can_prune sc ow).
+Proof. intros sc ow. exact (conj (PolicySrcAgree.src_can_apply_agrees sc ow) (PolicySrcAgree.src_can_prune_agrees sc ow)). Qed.
+Theorem C02_policy_source_constants :
+  map PolicySrcAgree.policy_of_name SourceTables.src_policy_iota = [Some PMustMatch; Some PAdoptIfNoInventory; Some PAdoptAll] /\
+  SourceTables.src_idmatch_iota = map PolicySrcAgree.status_name [ONone; OOurs; OOther] /\
+  SourceTables.src_idmatch = [("let", "annotations := obj.GetAnnotations()");
+                 ("let", "value, found := annotations[OwningInventoryKey]");
+                 ("!found", PolicySrcAgree.status_name ONone);
+                 ("value == inv.ID()", PolicySrcAgree.status_name OOurs);
+                 ("", PolicySrcAgree.status_name OOther)]%string /\
+  SourceTables.src_owning_inventory_key = "config.k8s.io/owning-inventory"%string.
+Proof.
+  exact (conj (proj1 PolicySrcAgree.src_policy_constants)
+        (conj (proj1 PolicySrcAgree.src_idmatch_constants) PolicySrcAgree.src_idmatch_agrees)).
+Qed.
+Print Assumptions C02_policy_source_translation_agrees.
+Print Assumptions C02_policy_source_constants.
